@@ -56,8 +56,12 @@ PARTIAL = ["conservation/reversibility are proved for abstract local flows (pali
            "record (Ptn.C06.tdvp_site_update_canonical, tdvp_gauge_invariant) and, with the QR / SVD contract 'the "
            "factor left at the split node is an isometry toward the neighbour' as an explicit hypothesis, for abstract "
            "tensors (tdvp_site_update_isometric); the machine is tied to the code by the observed split sequence and "
-           "the isometry of every other tensor at every time_evolve call; NOT proved: that 'isometry toward m' of the "
-           "record means the index-form condition of Kids.Canon for the re-rooted tree (the translation RTree -> Kids); "
+           "the isometry of every other tensor at every time_evolve call; the translation of the record into the "
+           "index-form condition Kids.Canon of the tree re-rooted at the update site is PROVED on valued networks "
+           "(Ptn.C06.tdvp_update_site_kids_canon, tdvp_event_centre_kids_canon, tdvp_one_site_update_conserves_norm: "
+           "hypotheses are the per-QR contracts of the value-level run VRun and the truth of the INITIAL record only); "
+           "NOT proved: the doubled tree around the LINK tensor during a link update; VRun is a model of the events' "
+           "effect on the tensors and is not compared with the library by a driver command; "
            "zero-padded bonds (KEEP mode: partial isometries) are outside "
            "the hypothesis (covered by local_update_conserves_norm_padded with the projector as a hypothesis)",
            "floating-point accuracy of expm/QR is by contract"]
